@@ -60,6 +60,7 @@ func GetAsString(name string, fallback string) StringOption {
 	return func() string {
 		if !valid.IsSet() {
 			valid = getValidityFlag()
+			verifPoint("config.get.afterFlag")
 			option, valueCache = getValueCache(name, option, OptTypeString)
 			if valueCache != nil {
 				value = valueCache.stringVal
@@ -83,6 +84,7 @@ func GetAsStringArray(name string, fallback []string) StringArrayOption {
 	return func() []string {
 		if !valid.IsSet() {
 			valid = getValidityFlag()
+			verifPoint("config.get.afterFlag")
 			option, valueCache = getValueCache(name, option, OptTypeStringArray)
 			if valueCache != nil {
 				value = valueCache.stringArrayVal
@@ -106,6 +108,7 @@ func GetAsInt(name string, fallback int64) IntOption {
 	return func() int64 {
 		if !valid.IsSet() {
 			valid = getValidityFlag()
+			verifPoint("config.get.afterFlag")
 			option, valueCache = getValueCache(name, option, OptTypeInt)
 			if valueCache != nil {
 				value = valueCache.intVal
@@ -129,6 +132,7 @@ func GetAsBool(name string, fallback bool) BoolOption {
 	return func() bool {
 		if !valid.IsSet() {
 			valid = getValidityFlag()
+			verifPoint("config.get.afterFlag")
 			option, valueCache = getValueCache(name, option, OptTypeBool)
 			if valueCache != nil {
 				value = valueCache.boolVal
